@@ -7,7 +7,7 @@ RULE = ("exhaustive: every directed graph on n statements of phase A whose depen
         "{A's ids (self-loops incl.), one dangling id, one id of phase B} for n <= 2, over {A's ids, dangling} for n = 3 "
         "(thorough: n = 3 with the cross-phase id too, n = 4 over A's ids), each combined with switch statements to an "
         "existing/missing phase and a condition flag assigned 0/1/2 times; random: 1-3 phases of up to 12 statements. "
-        "Compared with the Lean model: outcome class and the set of message kinds. Oracle: independent well-formedness "
+        "Compared with the Lean model: the outcome class (accepted / documented error / other exception) - not the wording or the number of messages, which the property leaves open. Oracle: independent well-formedness "
         "checker (Kahn's algorithm + look-ups) vs. outcome, exception type, >= 1 message; accepted methods are pushed through "
         "create_ast_from_phase and the execution controller's planner. Non-trivial: at least one dependency edge.")
 TRUSTED = ["statement ids are assumed unique within a phase (the builder guarantees it; duplicates are outside the property)",
@@ -105,7 +105,9 @@ def impl(case):
 
 def normalise(out):
     if isinstance(out, dict):
-        return {k: v for k, v in out.items() if k in ("res", "kinds", "exc", "bad", "harness_error")}
+        # message texts and which passes still get to report after the first failure are not part of the
+        # property (a harmless rewording / a pass that keeps going must not break the tie): outcome class only
+        return {k: v for k, v in out.items() if k in ("res", "exc", "bad", "harness_error")}
     return out
 
 
